@@ -271,6 +271,7 @@ pub fn run(o: &Opts, stats: &mut Stats) -> Option<usize> {
         let c2 = with_name(c, NAMES[ni]);
         // enforcement differential and every-byte truncation on a subset (quick: 1 in 10 of the visited)
         let deep = o.thorough || (i / stride) % 10 == 0;
+        set_now_cfg(json!({"case": i, "name": ni, "rule": format!("{:?}", c2)}).to_string());
         stats.configs += 1;
         stats.executions += 1;
         stats.states.insert(i as u64);
